@@ -59,9 +59,32 @@ def _widen(a):
 
 
 # ---- per-program runners: name -> fn(case) -> (compiled_outputs, twin_outputs, extra_checks) -------------------------------------------
+LAYOUT = {"mode": "contig"}
+
+
+def _strided(a):
+    """The same values as a view with a non-unit stride along the last axis (every second cell of a poisoned buffer)."""
+    if not isinstance(a, np.ndarray) or a.ndim == 0 or a.shape[-1] < 2:
+        return a
+    # the cells in between hold plausible values (the argument's own, shifted): a loop that ignores the stride computes
+    # something different but does not overflow
+    other = np.roll(a, 1, axis=-1)
+    if a.dtype.kind == "f":
+        with np.errstate(all="ignore"):
+            other = np.where(np.isfinite(a) & np.isfinite(other), 0.5 * a + 0.5 * other + 0.125, other).astype(a.dtype)
+    buf = np.repeat(other, 2, axis=-1)
+    v = buf[..., ::2]
+    v[...] = a
+    return v
+
+
 def gu(name, ins, outs, twin_ins=None):
     """Run a gufunc program and its twin. outs: list of (shape, dtype)."""
     k = PROGS[name]
+    twin_ins = twin_ins or ins
+    if LAYOUT["mode"] == "strided":
+        # the source indexes its arguments as NumPy arrays, whatever their strides: the compiled loop must do the same
+        ins = tuple(_strided(a) for a in ins)
     got = call(name, k, *ins)
     got = got if isinstance(got, tuple) else (got,)
     o = [np.zeros(s, dtype=d) for s, d in outs]
@@ -309,6 +332,7 @@ def compare(name, case, got, tw, rounded):
 def sub_program(case):
     name = case["prog"]
     run = RUNNERS[name]
+    LAYOUT["mode"] = case.get("layout", "contig")
     twins.PROXY.rounded.clear()
     _rounded.clear()
     try:
@@ -381,6 +405,8 @@ def pcase(draw, name):
             "mk": mk, "mk_s": draw(st.integers(-50, 50)), "mk_v": draw(st.integers(1, 4000)), "mk_z": draw(st.floats(-6, 6)),
             "s": 10 ** draw(st.floats(-4, 0.5)), "groups": list(draw(st.permutations(base))), "window": draw(st.integers(1, n)),
             "gap": draw(st.sampled_from([1, 5, 10])), "tail": draw(st.integers(0, 6)), "per": draw(st.sampled_from([1, 7, 10]))}
+    if draw(st.integers(0, 2)) == 0:
+        case["layout"] = "strided"
     return case
 
 
@@ -399,7 +425,7 @@ def run(ctx):
                 rec.discard("program", why)
             else:
                 checked["n"] += 1
-            rec.case("program", case, nontrivial=why is None, cls=["prog:" + name, "dtype:" + case["dtype"]])
+            rec.case("program", case, nontrivial=why is None, cls=["prog:" + name, "dtype:" + case["dtype"], "layout:" + case.get("layout", "contig")])
         ctx.given("program", pcase(name), per, fn=f, shrink=False)
     req_n = len(names)
     if req_n != 35:
